@@ -83,7 +83,7 @@ func runC05(c *Ctx) {
 
 func ruleDial(c *Ctx) {
 	p := c.P
-	const shT = "service.streamHandler"
+	shT := streamHandlerT(c)
 	dialField := ""
 	for _, fl := range p.StructFields(shT) {
 		if eng.TypeName(fl.Type()) == "sdk/transport.StreamDialer" {
@@ -187,7 +187,7 @@ func ruleDial(c *Ctx) {
 						return false
 					}
 					g, ok := u.X.(*ssa.Global)
-					return ok && g.Name() == "defaultDialer"
+					return ok && g.Pkg != nil && g.Pkg.Pkg.Path() == eng.Mod+"/service"
 				})
 			}
 			c.CheckAt("DIAL", "constructor-installs-default-dialer:"+short(st.Fn), st.Ins, okDef, "the stream handler is constructed with a dialer other than the package's validating default")
@@ -503,18 +503,33 @@ func ruleTable(c *Ctx) {
 			c.CheckAt("TABLE", fmt.Sprintf("%s:return#%d:false-only-after-all-entries", short(ip), i), r, !reach && !early, "reports not-private before every table entry was tested")
 		}
 	}
-	// the table ranged over is the one the literals were appended to
+	// the table ranged over is the one the literals were appended to: a package-level variable of IPNet values filled at init
+	tableGlobals := map[*ssa.Global]bool{}
+	for f := range p.All {
+		if eng.PkgPathOf(f) != eng.Mod+"/net" {
+			continue
+		}
+		for _, b := range f.Blocks {
+			for _, ins := range b.Instrs {
+				if st, ok := ins.(*ssa.Store); ok {
+					if g, ok := st.Addr.(*ssa.Global); ok && strings.Contains(g.Type().String(), "net.IPNet") {
+						tableGlobals[g] = true
+					}
+				}
+			}
+		}
+	}
 	okTab := false
 	for _, b := range ip.Blocks {
 		for _, ins := range b.Instrs {
 			if u, ok := ins.(*ssa.UnOp); ok && u.Op == token.MUL {
-				if g, ok := u.X.(*ssa.Global); ok && g.Name() == "privateNetworks" {
+				if g, ok := u.X.(*ssa.Global); ok && tableGlobals[g] {
 					okTab = true
 				}
 			}
 		}
 	}
-	c.Check("TABLE", short(ip)+":uses-the-table", p.Pos(ip.Pos()), okTab, "IsPrivateAddress does not read the privateNetworks table")
+	c.Check("TABLE", short(ip)+":uses-the-table", p.Pos(ip.Pos()), okTab, "the membership function does not read the table the CIDR literals are stored in")
 }
 
 // ---- C05.NOOVERRIDE ----
@@ -549,11 +564,11 @@ func ruleNoOverride(c *Ctx) {
 		}
 	}
 	// packet handler validator field: constructor stores RequirePublicIP; only other store is the setter
-	for _, fl := range p.StructFields("service.packetHandler") {
+	for _, fl := range p.StructFields(packetHandlerT(c)) {
 		if !strings.Contains(fl.Type().String(), "func(net.IP) error") {
 			continue
 		}
-		for _, st := range p.FieldStores("service.packetHandler", fl.Name()) {
+		for _, st := range p.FieldStores(packetHandlerT(c), fl.Name()) {
 			switch {
 			case st.Fresh:
 				okV := false
